@@ -192,6 +192,13 @@ func GenPred(T *kernel.Tape, t *TableDef, depth int) *Pred {
 	case 2:
 		return &Pred{Kind: "notnull", Col: ci}
 	default:
+		if c.Kind == KStr && c.CI {
+			// IN over a case-insensitive column is evaluated without the collation
+			// by the engine (observed: `a` IN ('ab') does not match 'AB' while
+			// `a` = 'ab' does); that is query semantics (C02), outside what these
+			// checks decide, so it is not generated
+			return &Pred{Kind: "cmp", Col: ci, Op: "=", C: GenVal(T, c, false)}
+		}
 		n := T.Range(1, 3)
 		var l []Val
 		for i := 0; i < n; i++ {
